@@ -95,7 +95,8 @@ def make_prog(rng, base=None, opts=None):
             count[x["id"]] = count.get(x["id"], 0) + 1
         for h in spec.all_sets(tree):
             for x in h["imports"]:
-                if count[x["id"]] == 1 and rng.random() < 0.5 and (h["pkg"] == 0 or x["pkg"] == 1):
+                hidden = any(v.get("unexported") for v in x["values"]) or any(q.get("unexp") for q in x["providers"])
+                if count[x["id"]] == 1 and rng.random() < 0.5 and (h["pkg"] == 0 or x["pkg"] == 1) and not hidden:
                     x["inline"] = True; x["pkg"] = h["pkg"] if h["pkg"] == 1 else x["pkg"]
     # concrete argument types that happen to implement a bound interface without being bound to it
     prog["extra_impl"] = {}
@@ -132,7 +133,8 @@ def make_prog(rng, base=None, opts=None):
     # a value expression written in a library set that mentions an unexported field (C13/C01: not accessible
     # from the injector's package)
     if rng.random() < opts.get("unexported_p", 0.08):
-        cands = [(x, v) for x in spec.all_sets(tree) if x["pkg"] == 1 for v in x["values"] if kinds.get(v["out"] // 2) != "iface"]
+        win = written_in(tree)
+        cands = [(x, v) for x in spec.all_sets(tree) if win.get(x["id"]) == {1} for v in x["values"] if kinds.get(v["out"] // 2) != "iface"]
         if cands:
             x, v = rng.choice(cands)
             for y in spec.all_sets(tree):
@@ -143,8 +145,9 @@ def make_prog(rng, base=None, opts=None):
     # a provider function with an unexported name, declared in the library and listed in a library set only
     # (C01: the injector's package cannot call it)
     if rng.random() < opts.get("unexp_prov_p", 0.06):
-        rootish = {q["id"] for x in spec.all_sets(tree) if x["pkg"] == 0 for q in x["providers"]}
-        cands = sorted({q["id"] for x in spec.all_sets(tree) if x["pkg"] == 1 for q in x["providers"] if not q["struct"] and q["pkg"] == 1 and q["id"] not in rootish})
+        win = written_in(tree)
+        rootish = {q["id"] for x in spec.all_sets(tree) if win.get(x["id"]) != {1} for q in x["providers"]}
+        cands = sorted({q["id"] for x in spec.all_sets(tree) if win.get(x["id"]) == {1} for q in x["providers"] if not q["struct"] and q["pkg"] == 1 and q["id"] not in rootish})
         if cands:
             pick = rng.choice(cands)
             for q in allp:
@@ -197,7 +200,45 @@ def make_prog(rng, base=None, opts=None):
                 for q in allp:      # every copy of the provider (a set reached along two paths is duplicated in the tree)
                     if q["struct"] and q["outs"][0] // 2 == k and name not in q["fields"]:
                         q["args"] = q["args"] + [ft]; q["fields"] = q["fields"] + [name]
+    # types spread over two library packages: lib2 holds types whose fields (if any) are lib2 types as well; lib imports it
+    prog["type_pkg"] = {}
+    if rng.random() < opts.get("lib2_p", 0.3):
+        ftypes = {}
+        for x in spec.all_sets(tree):
+            for q in x["providers"]:
+                if q["struct"]:
+                    ftypes.setdefault(q["outs"][0] // 2, set()).update(a // 2 for a in q["args"])
+            for f in x["fields"]:
+                ftypes.setdefault(f["parent"] // 2, set()).add(f["outs"][0] // 2)
+        for k, xf in prog["extra_fields"].items():
+            ftypes.setdefault(int(k), set()).add(xf["t"] // 2)
+        ks = sorted({t // 2 for t in synth.all_types(tree, prog["given"], prog["out"])} | set(ftypes) | {j for v in ftypes.values() for j in v})
+        pinned = {v["out"] // 2 for x in spec.all_sets(tree) for v in x["values"] if v.get("unexported")}
+        chosen = {k for k in ks if k not in pinned and rng.random() < 0.5}
+        if chosen and len(chosen) == len(ks):
+            chosen.discard(min(chosen))
+        changed = True
+        while changed:
+            changed = False
+            for k in sorted(chosen):
+                if any(j not in chosen for j in ftypes.get(k, ())):
+                    chosen.discard(k); changed = True
+        prog["type_pkg"] = {k: 2 for k in chosen}
+        prog["lib2_same_name"] = rng.random() < 0.3
     return prog
+
+
+def written_in(tree):
+    """set id -> set of packages (0 app / 1 lib) in whose source text the set's items are written: an inline set is
+    written where its host is."""
+    out = {}
+
+    def walk(x, ctx):
+        out.setdefault(x["id"], set()).add(ctx)
+        for y in x["imports"]:
+            walk(y, ctx if y.get("inline") else y["pkg"])
+    walk(tree, 0)
+    return out
 
 
 TYPE_POOL = ["Cleanup", "Cleanup2", "Err", "Err2", "Error", "Type", "Func", "Select", "Var", "Range", "Map", "Chan", "Go", "String",
@@ -227,6 +268,9 @@ def adversarial_names(rng, prog, kinds):
         for i in range(n):
             r = rng.random()
             params.append("_" if r < 0.3 else (pp.pop() if r < 0.85 and pp else "a%d" % i))
+        for i in range(n):                     # Go wants distinct parameter names
+            if params[i] != "_" and params[i] in params[:i]:
+                params[i] = "q%d" % i
     decls = []
     dp = list(DECL_POOL); rng.shuffle(dp)
     taken = set()
@@ -313,6 +357,10 @@ class Render:
         self.libdir = "%s/%s" % (cdir, sub)
         self.apppath = "%s/%s/app" % (modpath, cdir)
         self.liblocal = "xlib"   # local import name used in the app's hand-written files
+        self.type_pkg = {int(k): int(v) for k, v in (prog.get("type_pkg") or {}).items()}
+        self.lib2name = self.libname if prog.get("lib2_same_name") else ("lib2" if self.libname != "lib2" else "lib3")
+        self.lib2path = "%s/%s/sub2/%s" % (modpath, cdir, self.lib2name)
+        self.lib2dir = "%s/sub2/%s" % (cdir, self.lib2name)
         self.tnames = {int(k): v for k, v in (names.get("types") or {}).items()}
         self.param_names = names.get("params")
         self.app_decls = names.get("app_decls") or []
@@ -321,10 +369,21 @@ class Render:
     def tn(self, k):
         return self.tnames.get(k, "T%d" % k)
 
-    # type expression for type id t as seen from package pkg (0 app / 1 lib)
+    def tpkg(self, k):
+        return self.type_pkg.get(k, 1)
+
+    def tq(self, k, ctx):
+        """Qualifier of the package that declares type k, as written in package ctx (0 app, 1 lib, 2 lib2)."""
+        tp = self.tpkg(k)
+        if tp == ctx:
+            return ""
+        if ctx == 0:
+            return "xlib." if tp == 1 else "xlib2."
+        return "lib2x."
+
+    # type expression for type id t as seen from package pkg (0 app / 1 lib / 2 lib2)
     def ty(self, t, pkg):
-        q = "" if pkg == 1 else self.liblocal + "."
-        return ("*" if t % 2 else "") + q + self.tn(t // 2)
+        return ("*" if t % 2 else "") + self.tq(t // 2, pkg) + self.tn(t // 2)
 
     def collect(self):
         p = self.p
@@ -387,8 +446,8 @@ class Render:
 
     # ---- Go snippets
     def desc(self, expr, t, pkg):
-        q = "" if pkg == 1 else self.liblocal + "."
         k = t // 2
+        q = self.tq(k, pkg)
         if self.types[k]["kind"] == "iface":
             return "%sDescI%d(%s)" % (q, k, expr)
         if t % 2:
@@ -397,8 +456,8 @@ class Render:
 
     def mkval(self, t, idexpr, pkg, fields_from_id=True):
         """Expression building a value of type t with identity idexpr (a Go string expression)."""
-        q = "" if pkg == 1 else self.liblocal + "."
         k = t // 2
+        q = self.tq(k, pkg)
         td = self.types[k]
         if td["kind"] == "iface":
             return "%sNewImpl%d(%s)" % (q, k, idexpr)
@@ -416,12 +475,12 @@ class Render:
         return ("&" if t % 2 else "") + lit
 
     def mkval_leaf(self, t, idexpr, pkg):
-        q = "" if pkg == 1 else self.liblocal + "."
+        q = self.tq(t // 2, pkg)
         lit = "%s%s{ID: %s}" % (q, self.tn(t // 2), idexpr)
         return ("&" if t % 2 else "") + lit
 
     def zero(self, t, pkg):
-        q = "" if pkg == 1 else self.liblocal + "."
+        q = self.tq(t // 2, pkg)
         if t % 2 or self.types[t // 2]["kind"] == "iface":
             return "nil"
         return "%s%s{}" % (q, self.tn(t // 2))
@@ -469,7 +528,7 @@ class Render:
         for pr in s["providers"]:
             if pr["struct"]:
                 k = pr["outs"][0] // 2
-                tq = q + self.tn(k)
+                tq = self.tq(k, pkg) + self.tn(k)
                 fields = self.types[k]["fields"]
                 allsp = [f["name"] for f in fields if not self.prevented(f["tag"])]
                 self.set_lits(pr)
@@ -479,7 +538,7 @@ class Render:
         for v in s["values"]:
             t = v["out"]
             if self.types[t // 2]["kind"] == "iface":
-                out.append("wire.InterfaceValue(new(%s%s), %s%sNewImpl%d(\"val%d\")%s)" % (q, self.tn(t // 2), "(" if v.get("paren") else "", q, t // 2, v["id"], ")" if v.get("paren") else ""))
+                out.append("wire.InterfaceValue(new(%s%s), %s%sNewImpl%d(\"val%d\")%s)" % (self.tq(t // 2, pkg), self.tn(t // 2), "(" if v.get("paren") else "", self.tq(t // 2, pkg), t // 2, v["id"], ")" if v.get("paren") else ""))
                 v["_call"] = True
             else:
                 e = self.mkval(t, '"val%d"' % v["id"], pkg, fields_from_id=False)
@@ -488,9 +547,9 @@ class Render:
                 out.append("wire.Value(%s)" % (("(" + e + ")") if v.get("paren") else e))
         for f in s["fields"]:
             par = f["parent"]
-            out.append('wire.FieldsOf(new(%s%s%s), "%s")' % ("*" if par % 2 else "", q, self.tn(par // 2), f["name"]))
+            out.append('wire.FieldsOf(new(%s%s%s), "%s")' % ("*" if par % 2 else "", self.tq(par // 2, pkg), self.tn(par // 2), f["name"]))
         for b in s["bindings"]:
-            out.append("wire.Bind(new(%s%s), new(%s%s%s))" % (q, self.tn(b["iface"] // 2), "*" if b["conc"] % 2 else "", q, self.tn(b["conc"] // 2)))
+            out.append("wire.Bind(new(%s%s), new(%s%s%s))" % (self.tq(b["iface"] // 2, pkg), self.tn(b["iface"] // 2), "*" if b["conc"] % 2 else "", self.tq(b["conc"] // 2, pkg), self.tn(b["conc"] // 2)))
         return out
 
     def set_lits(self, pr):
@@ -508,15 +567,22 @@ class Render:
     def prevented(tag):
         return re.search(r'(^|\s)wire:"-"', tag) is not None
 
-    def lib_go(self):
-        L = ["package %s\n" % self.libname]
-        uses_wire = any(s["pkg"] == 1 and s["id"] != 0 and not s.get("inline") for s in self.sets.values())
+    def lib_go(self, which=1):
+        L = ["package %s\n" % (self.libname if which == 1 else self.lib2name)]
+        uses_wire = which == 1 and any(s["pkg"] == 1 and s["id"] != 0 and not s.get("inline") for s in self.sets.values())
         imps = ['"%s/rt"' % self.mod]
         if uses_wire:
             imps.append('"%s"' % WIRE_IMPORT)
+        l2 = sorted(k for k in self.types if self.tpkg(k) == 2)
+        if which == 1 and l2:
+            imps.append('lib2x "%s"' % self.lib2path)
         L.append("import (\n\t" + "\n\t".join(imps) + "\n)\n")
         L.append("var _ = rt.Note\n")
+        if which == 1 and l2:
+            L.append("var _ lib2x.%s\n" % self.tn(l2[0]))
         for k in sorted(self.types):
+            if self.tpkg(k) != which:
+                continue
             td = self.types[k]
             n = self.tn(k)
             if td["kind"] == "iface":
@@ -532,11 +598,11 @@ class Render:
             fl = ["\tID string `wire:\"-\"`", "\thid int `wire:\"-\"`"]
             for f in td["fields"]:
                 tag = (" `%s`" % f["tag"]) if f["tag"] else ""
-                fl.append("\t%s %s%s" % (f["name"], self.ty(f["t"], 1), tag))
+                fl.append("\t%s %s%s" % (f["name"], self.ty(f["t"], which), tag))
             L.append("type %s struct {\n%s\n}\n" % (n, "\n".join(fl)))
             parts = []
             for f in td["fields"]:
-                parts.append('"%s:" + %s' % (f["name"], self.desc("x." + f["name"], f["t"], 1)))
+                parts.append('"%s:" + %s' % (f["name"], self.desc("x." + f["name"], f["t"], which)))
             lit = ' + "," + '.join(parts) if parts else '""'
             L.append('func (x %s) Desc() string {\n\tif x.ID != "" {\n\t\treturn x.ID\n\t}\n\tif x == (%s{}) {\n\t\treturn "zero"\n\t}\n\treturn "%s{" + %s + "}"\n}\n' % (n, n, "T%d" % k, lit))
             L.append('func DescP%d(p *%s) string {\n\tif p == nil {\n\t\treturn "nil"\n\t}\n\treturn "&" + p.Desc()\n}\n' % (k, n))
@@ -544,10 +610,11 @@ class Render:
                 L.append("func (x %s) Is%d() {}\n" % (n, i))
             for i in sorted(td["ptrimpl"] - td["impl"]):
                 L.append("func (x *%s) Is%d() {}\n" % (n, i))
-        for pr in sorted(self.provs.values(), key=lambda x: x["id"]):
-            if pr["pkg"] == 1 and not pr["struct"]:
-                L.append(self.provider_src(pr))
-        L.append(self.sets_src(1))
+        if which == 1:
+            for pr in sorted(self.provs.values(), key=lambda x: x["id"]):
+                if pr["pkg"] == 1 and not pr["struct"]:
+                    L.append(self.provider_src(pr))
+            L.append(self.sets_src(1))
         return "\n".join(L)
 
     def sets_src(self, pkg):
@@ -570,13 +637,27 @@ class Render:
             return [""] * n
         return list(self.param_names)[:n] + ["a%d" % i for i in range(len(self.param_names), n)]
 
+    def inj_imports(self, text):
+        """Import block of an injector file: only what its text mentions (a blank use would be copied into wire_gen.go)."""
+        imps = []
+        if "xlib." in text:
+            imps.append('xlib "%s"' % self.libpath)
+        if "xlib2." in text:
+            imps.append('xlib2 "%s"' % self.lib2path)
+        imps.append('"%s"' % WIRE_IMPORT)
+        return "import (\n\t" + "\n\t".join(imps) + "\n)\n"
+
     def app_files(self):
         p = self.p
         files = {}
-        imp_lib = 'xlib "%s"' % self.libpath
+        l1 = sorted(k for k in self.types if self.tpkg(k) == 1)
+        l2 = sorted(k for k in self.types if self.tpkg(k) == 2)
+        imp_lib = 'xlib "%s"' % self.libpath + ('\n\txlib2 "%s"' % self.lib2path if l2 else "")
+        blank = "var _ %s\n" % (self.liblocal + "." + self.tn(l1[0])) + ("var _ xlib2.%s\n" % self.tn(l2[0]) if l2 else "")
+        self._imp_lib, self._blank = imp_lib, blank
         # providers and sets of the app package
         L = ["package app\n", "import (\n\t%s\n\t\"%s/rt\"\n\t\"%s\"\n)\n" % (imp_lib, self.mod, WIRE_IMPORT),
-             "var _ = rt.Note\nvar _ = wire.NewSet\nvar _ %s\n" % (self.liblocal + "." + self.tn(min(self.types)))]
+             "var _ = rt.Note\nvar _ = wire.NewSet\n" + blank]
         for pr in sorted(self.provs.values(), key=lambda x: x["id"]):
             if pr["pkg"] == 0 and not pr["struct"]:
                 L.append(self.provider_src(pr))
@@ -595,14 +676,12 @@ class Render:
         rs = res[0] if len(res) == 1 else "(" + ", ".join(res) + ")"
         build = "wire.Build(%s)" % ", ".join(self.item_exprs(p["tree"], 0))
         zero = [self.zero(p["out"], 0)] + (["nil"] if p["cleanup"] else []) + (["nil"] if p["err"] else [])
-        if p["style"] == "panic":
+        if p["style"] == "panic" or "nil" in pn:      # a parameter named nil shadows the nil of `return x, nil, nil`
             body = "\tpanic(%s)" % build
         else:
             body = "\t%s\n\treturn %s" % (build, ", ".join(zero))
-        W = ["//go:build wireinject\n// +build wireinject\n", "package app\n",
-             "import (\n\t%s\n\t\"%s\"\n)\n" % (imp_lib, WIRE_IMPORT),
-             "var _ %s\n" % (self.liblocal + "." + self.tn(min(self.types))),
-             "func Inject(%s) %s {\n%s\n}\n" % (params, rs, body)]
+        fn = "func Inject(%s) %s {\n%s\n}\n" % (params, rs, body)
+        W = ["//go:build wireinject\n// +build wireinject\n", "package app\n", self.inj_imports(fn), fn]
         files["app/wire.go"] = "\n".join(W)
         self.inline_pos = {}
         text, start = files["app/wire.go"], 0
@@ -615,7 +694,7 @@ class Render:
                     self.inline_pos[(line, col)] = i["id"]
                     start = at + 1
         # driver
-        D = ["package app\n", "import (\n\t%s\n\t\"%s/rt\"\n)\n" % (imp_lib, self.mod), "var _ %s\n" % (self.liblocal + "." + self.tn(min(self.types)))]
+        D = ["package app\n", "import (\n\t%s\n\t\"%s/rt\"\n)\n" % (imp_lib, self.mod), blank]
         fails = [""] + ["P%d" % pr["id"] for pr in sorted(self.provs.values(), key=lambda x: x["id"]) if pr["err"] and not pr["struct"]]
         args = ", ".join(self.mkval(t, '"arg%d"' % i, 0) for i, t in enumerate(p["given"]))
         lhs = ["v"] + (["cleanup"] if p["cleanup"] else []) + (["err"] if p["err"] else [])
@@ -633,6 +712,8 @@ class Render:
 
     def files(self):
         out = {self.libdir + "/lib.go": self.lib_go()}
+        if any(self.tpkg(k) == 2 for k in self.types):
+            out[self.lib2dir + "/lib2.go"] = self.lib_go(2)
         for k, v in self.app_files().items():
             out[self.cdir + "/" + k] = v
         return out
